@@ -208,7 +208,7 @@ def evaluate(case):
 
 def cases(tier, seed):
     off = seed_offset(seed) if seed else 0.37
-    tabs = ["T_ship_gas", "T_hay", "T_ship_oil", "T_lib", "S_ideal", "S_zdip", "A_const", "A_kink", "A_jump"]
+    tabs = ["T_ship_gas", "T_hay", "T_ship_oil", "T_lib", "S_ideal", "S_zdip", "A_const", "A_kink", "A_jump", "A_int"]
     if tier == "thorough":
         tabs += ["S_zlin", "A_rise", "A_fall", "A_kink1e3"]
     out = []
